@@ -93,8 +93,8 @@ def work(args):
         res["checks"] = {}
         for c in checks:
             rcc, oc = sh([os.path.join(VERIF, "bin", "check"), c, "--repo", wt, "--no-evidence"], cwd=VERIF, timeout=3000)
-            rules = sorted(set(re.findall(r"^  ((?:C\d\d|CRASH)[.\w]*):", oc, re.M)))
-            first = next((l.strip()[:300] for l in oc.splitlines() if re.match(r"^  (C\d\d|CRASH)", l)), "")
+            rules = sorted(set(re.findall(r"^  ((?:C\d\d|CRASH|ISO)[.\w]*):", oc, re.M)))
+            first = next((l.strip()[:300] for l in oc.splitlines() if re.match(r"^  (C\d\d|CRASH|ISO)", l)), "")
             res["checks"][c] = {"exit": rcc, "rules": rules, "first": first if rcc == 1 else ("" if rcc == 0 else oc.strip().splitlines()[-1][:300])}
     except Exception as e:  # keep going with the other seeds
         res["error"] = f"{type(e).__name__}: {e}"
